@@ -384,6 +384,8 @@ pub struct VerifState {
     pub pending_module_sources: usize,
     pub loaded_modules: usize,
     pub root_guard_len: usize,
+    /// open block scopes per VM frame (current frame first); empty without an active VM
+    pub scope_profile: Vec<usize>,
 }
 
 impl Interpreter {
@@ -771,6 +773,11 @@ impl Interpreter {
             pending_module_sources: self.pending_module_sources.len(),
             loaded_modules: self.loaded_modules.len(),
             root_guard_len: self.root_guard.len(),
+            scope_profile: self
+                .active_vm
+                .as_ref()
+                .map(|vm| vm.verif_scope_profile())
+                .unwrap_or_default(),
         }
     }
 
